@@ -277,3 +277,44 @@ func init() {
 	// make runaway recursion die quickly instead of eating a gigabyte of stack first
 	debug.SetMaxStack(256 << 20)
 }
+
+// FuzzProperty drives a registered property with Go's coverage-guided fuzzer: the fuzzer's
+// bytes are rapid's source of randomness (rapid.MakeFuzz), so coverage feedback steers the
+// same generators and the same oracle. A failing case is written to VERIF_FUZZ_OUT as JSON,
+// which is what ./check turns into the replay file.
+func FuzzProperty(f *testing.F, id string) {
+	p := registry[id]
+	if p == nil {
+		f.Fatalf("unknown property %s", id)
+	}
+	out := os.Getenv("VERIF_FUZZ_OUT")
+	// seed corpus: a few fixed pseudo-random byte strings (enough entropy for whole cases)
+	x := uint64(0x9E3779B97F4A7C15)
+	for i := 0; i < 12; i++ {
+		b := make([]byte, 768)
+		for j := range b {
+			x ^= x << 13
+			x ^= x >> 7
+			x ^= x << 17
+			b[j] = byte(x >> 32)
+		}
+		f.Add(b)
+	}
+	f.Fuzz(rapid.MakeFuzz(func(rt *rapid.T) {
+		c := p.Gen(rt)
+		st := newStats(id)
+		st.begin(c)
+		err := safeCheck(p, c, st)
+		if err == nil {
+			return
+		}
+		if _, ok := err.(Discard); ok {
+			return
+		}
+		if out != "" {
+			b, _ := json.MarshalIndent(failRecord{Property: id, Message: err.Error(), Describe: st.curDesc, Case: st.curJSON}, "", " ")
+			_ = os.WriteFile(filepath.Join(out, fmt.Sprintf("fuzzfail-%016x.json", st.curHash)), b, 0o644)
+		}
+		rt.Fatalf("%s violated: %v\ncase: %s\n%s", id, err, st.curDesc, st.curJSON)
+	}))
+}
